@@ -3,9 +3,9 @@ import Rtsp.Proofs.Codec.Av1Resync
 Property theorems for pkg/format/rtpav1 (encoder.go, decoder.go, as repaired by the two `fix:`
 commits) with mediacommon's LEB128, about the model in `Model/Codec/Av1.lean`.
 
-  C06  c06_payload_le, c06_seq_consecutive, c06_seq_many, c06_pt_ssrc, c06_marker_only_last
+  C06  c06_payload_le, c06_seq_consecutive, c06_seq_many, c06_pt_ssrc, c06_marker_only_last, c06_encode_total
   C08  c08_inv_init, c08_inv_decode, c08_retained_le, c08_fragment_count_le, c08_out_le, c08_parse_total
-  C03  c03_roundtrip, c03_roundtrip_many
+  C03  c03_roundtrip, c03_roundtrip_many, c03_roundtrip_list
   C07  c07_flush (from ANY state, no invariant needed), c07_resync
 
 All statements quantify over every temporal unit (any number of OBUs of any size, empty ones
@@ -125,6 +125,19 @@ theorem c06_marker_only_last (e : Enc) (obus : List Bytes) (hc : ValidCfg e.cfg)
     · simp
   · intro p hp; exact (hall p hp).2.2.2
 
+/-- **C06 / C03 totality of the encoder loop**: for a limit ≥ 3 and a non-empty OBU the inner
+`for { … }` of `Encode` terminates — the model's fuel `len(obu) + 2` is never exhausted: any larger
+amount gives the same packets. (With a limit of 1 or 2 the Go loop does not terminate.) -/
+theorem c06_encode_total (c : EncCfg) (hc : ValidCfg c) (last : Bool) (st : St) (obu : Bytes) (extra : Nat)
+    (hroom : 1 + st.cur.body.length ≤ c.max) (hpos : 0 < obu.length) :
+    obuLoop c (lebSize c.max) last (obu.length + 2 + extra) st obu
+      = obuLoop c (lebSize c.max) last (obu.length + 2) st obu := by
+  induction extra with
+  | zero => rfl
+  | succ k ih =>
+    rw [← ih, ← Nat.add_assoc]
+    exact obuLoop_fuel c hc last _ st obu hroom hpos (by split <;> omega)
+
 /-! ## C08 -/
 
 theorem c08_inv_init (P : Nat) : Inv P {} := ⟨rfl, by simp, rfl, rfl, by simp, by simp, by simp⟩
@@ -197,6 +210,24 @@ theorem c03_roundtrip_many (e : Enc) (f g : List Bytes) (d : Dec) (hc : ValidCfg
   refine ⟨d2, ?_, hc2⟩
   rw [runDec_append, hr1]
   simp only [hr2]
+
+/-- **C03, any series of temporal units** through the same encoder / decoder pair: the decoder
+returns exactly the units, in order, answers "more packets needed" everywhere else (no error of any
+kind) and ends clean — for every number of units and every initial sequence number. -/
+theorem c03_roundtrip_list (e : Enc) (fs : List (List Bytes)) (d : Dec) (hc : ValidCfg e.cfg)
+    (hf : ∀ f ∈ fs, ValidFrame f) (hd : Clean d) :
+    Clean (runDec d (encodeMany e fs).2).1 ∧ okFrames (runDec d (encodeMany e fs).2).2 = fs ∧
+    OnlyMoreOk (runDec d (encodeMany e fs).2).2 := by
+  induction fs generalizing e d with
+  | nil => exact ⟨by simpa [encodeMany, runDec] using hd, rfl, by intro r hr; simp [encodeMany, runDec] at hr⟩
+  | cons f fs ih =>
+    obtain ⟨d1, hr1, hc1⟩ := roundtrip e f d hc (hf f (by simp)) hd
+    have hcfg : ValidCfg (encode e f).1.cfg := by rw [(c06_seq_consecutive e f hc).2.2]; exact hc
+    obtain ⟨g1, g2, g3⟩ := ih (encode e f).1 d1 hcfg (fun x hx => hf x (by simp [hx])) hc1
+    simp only [encodeMany, runDec_append, hr1]
+    refine ⟨g1, ?_, ?_⟩
+    · rw [okFrames_append, okFrames_frame, g2]; rfl
+    · exact onlyMoreOk_append _ _ (onlyMoreOk_frame _ _) g3
 
 /-! ## C07 -/
 
